@@ -178,7 +178,9 @@ class Repro:
         v = c["variant"]
         rng = np.random.RandomState(c["vseed"])
         try:
-            base = trace_asktell(c) if v != "default-termination" else None
+            # (the fresh-process variant must not run the case itself before the unrelated workload: that would
+            # initialise every size-keyed cache with this run's own values)
+            base = trace_asktell(c) if v not in ("default-termination", "fresh-process") else None
             if v == "default-termination":
                 # first a run driven on the object itself to the end of its default termination, then
                 # the same configuration on a fresh object through minimize()
